@@ -126,13 +126,21 @@ async fn run_case(w: &World, c: &Case, idx: usize) -> Vec<(String, String)> {
                 return v;
             }
             // 'succeeded' only once the tunnel exists: bytes flow both ways through the right target
+            let early: Vec<u8> = r.iter().skip(10).copied().filter(|_| c.name.starts_with("CONNECT followed at once")).collect();
             let _ = s.write_all(&marker).await;
-            let (echo, _) = read_n(&mut s, marker.len(), 3000).await;
+            let mut expect_echo = early.clone();
+            expect_echo.extend_from_slice(&marker);
+            let (echo, _) = read_n(&mut s, expect_echo.len(), 3000).await;
+            if !early.is_empty() && echo != expect_echo {
+                v.push(("C16:early-data-not-delivered-exactly-once".into(), format!("{}: the echo through the tunnel returned {} bytes ({:?}…), expected the {} early bytes followed by the marker", c.name, echo.len(), String::from_utf8_lossy(&echo[..echo.len().min(12)]), early.len())));
+                return v;
+            }
+            let echo = echo[early.len().min(echo.len())..].to_vec();
             if echo != marker {
                 v.push(("C16:success-reply-without-tunnel".into(), format!("{}: 'succeeded' was sent but the echo through the tunnel returned {:?}", c.name, String::from_utf8_lossy(&echo))));
             }
             let ts: Vec<&Target> = [Some(&w.t4), Some(&w.t4b), w.t6.as_ref()].into_iter().flatten().collect();
-            let hit: Vec<SocketAddr> = ts.iter().filter(|t| t.conns.lock().unwrap().iter().any(|k| k.lock().unwrap().received.starts_with(&marker))).map(|t| t.addr).collect();
+            let hit: Vec<SocketAddr> = ts.iter().filter(|t| t.conns.lock().unwrap().iter().any(|k| k.lock().unwrap().received.ends_with(&marker))).map(|t| t.addr).collect();
             if hit != vec![target] {
                 v.push(("C16:wrong-destination".into(), format!("{}: requested {target}, data arrived at {:?}", c.name, hit)));
             }
@@ -256,6 +264,12 @@ pub fn run(tier: Tier) -> i32 {
         // truncated requests (connection closed by the client mid-request is not observable; send and wait)
         for cut in 1..good_req.len() {
             cases.push(Case { name: format!("request truncated to {cut} bytes"), greeting: g.clone(), request: Some(good_req[..cut].to_vec()), cuts: vec![], expect_method_ok: true, expect_tunnel: None, truncated: true });
+        }
+        // ---- data sent right behind the request (before the reply): it belongs to the tunnel and must arrive exactly once
+        for early in [1usize, 700] {
+            let mut r = good_req.clone();
+            r.extend(std::iter::repeat(b'E').take(early));
+            cases.push(Case { name: format!("CONNECT followed at once by {early} data bytes"), greeting: g.clone(), request: Some(r), cuts: vec![], expect_method_ok: true, expect_tunnel: Some(a4), truncated: false });
         }
         // ---- fragmentation of the canonical exchange (greeting and request pipelined): every single cut, byte at a time
         let total = g.len() + good_req.len();
